@@ -458,7 +458,10 @@ BOUNDED = {
                  what="convert_to_sem_type and its *_runtype_ref_memo cuts (assumed conversion of named, possibly recursive types) followed by is_subtype: `S(v) <: B` for the singleton type S(v) of each of 611 finite values (null, 1, \"a\", lists up to length 3, linked-list objects, nesting depth 2) against 57 types over 9 named definitions (recursive tuple with itself as rest, mutually recursive tuples, recursive object, named closed/open tuples, ...); the oracle is membership of v in B by recursion on the value, exact in both directions; questions whose conversion is refused (Err) are skipped; a panic of the real code is a failing case"),
             dict(family="refsshared", obligation="conversion/bounded-standin/refsshared.memo",
                  known_cases="contracts/known_refsshared_cases.txt",
-                 what="the ASSUMED memo cuts (list_memo / mapping_memo / *_runtype_ref_memo persist in a SemTypeContext): the same 23769 questions as `refs`, asked in sequence against ONE context as in a compiler session, so that an answer memoised under the in-progress assumption of an earlier question would show")],
+                 what="the ASSUMED memo cuts (list_memo / mapping_memo / *_runtype_ref_memo persist in a SemTypeContext): the same 23769 questions as `refs`, asked in sequence against ONE context as in a compiler session, so that an answer memoised under the in-progress assumption of an earlier question would show"),
+            dict(family="memo", obligation="conversion/bounded-standin/memo.list_is_empty",
+                 known_cases="contracts/known_memo_cases.txt",
+                 what="the ASSUMED memo cut, directly: emptiness queries on 5 sets of mutually recursive named tuple types, every sequence of 1..3 queries against one context (95 sequences); one-sided definite oracle: a type reported EMPTY although a finite value (lists over null, nesting <= 4, length <= 2) is a member of it is a wrong answer")],
 }
 
 
